@@ -7,16 +7,44 @@ CFG = {
     "model_targets": ["Cont/Env.vo"],
     "proof_targets": ["Props/C14.vo"],
     "harness": [
+        # serial engine, default cut-offs: sessions + model cases
         {"bin": "h_cont", "name": "h_cont", "sub": "cont", "prefix": "cases_cont"},
+        # 4 threads, container cut-offs 0: parallel inter-container map and the parallel
+        # non-incremental variant; same sessions, the model cases are compared with this run too
         {"bin": "h_cont", "name": "h_cont_par", "sub": "cont-par", "prefix": "cases_cont",
          "extra": ["--threads", "4"], "env": PAR_ENV},
+        # > 1000 containers per Rust container type: the incremental strategy is chosen
         {"bin": "h_cont", "name": "h_cont_big", "sub": "cont-big", "extra": ["--big"]},
         {"bin": "h_cont", "name": "h_cont_big_par", "sub": "cont-big-par",
          "extra": ["--big", "--threads", "4"], "env": PAR_ENV},
     ],
     "corr_is_violation": True,
-    "trusted": [],
-    "theorem_backed": "",
-    "link_only": "",
-    "assumptions": [],
+    "trusted": [
+        "translator /verif/translator: gen/UFSeq.v (union-find, representative = least id) and gen/MergeArms.v "
+        "(merge_unionid = min; the container merge closure of register_container_ty has the same body)",
+        "hand-written Gallina model coq/Cont/Env.v of core-relations/src/containers/mod.rs and of "
+        "rebuild_contents/iter of src/sort/{vec,set,multiset,pair,map}.rs, tied to the engine by the "
+        "correspondence cases (h_cont, serial and 4 threads) and by the seeded mutations",
+        "hook H0 EGraph::verif_canon_id (read-only) for canonical ids",
+    ],
+    "theorem_backed": "ContainerEnv as three finite maps over the translated union-find, for all reachable states "
+                      "(fresh classes, hash-consing insertions, unions of e-classes, rebuilds with ANY per-pass choice "
+                      "of strategy): to_id injective both ways and get_container its exact inverse, val_index complete, "
+                      "every live container id is a union-find root (hence suspect S3's branch is dead; witness that the "
+                      "branch would break val_index otherwise); the rebuild loop terminates within the stated fuel; at the "
+                      "fixpoint every stored id is canonical and containers equal after canonicalisation share one id; "
+                      "after one pass (either strategy) every container is filed under its canonicalised contents with an id in the class of its old id, so containers equal modulo the current equalities end in one class; every container changed in place is in the dirty set, which is closed under containment",
+    "link_only": "that the model is the code (correspondence cases: container histories under full / incremental / "
+                 "alternating strategies vs the engine, serial and parallel); rows keyed by containers merge (table "
+                 "rebuild; predicate (b) on dumps + harness closure + (check (= e1 e2))); refresh_rows_for_values re-stamps "
+                 "the rows mentioning dirty ids and semi-naive = naive after every command (lockstep engines, 26 rule "
+                 "templates); parallel get_or_insert races; which strategy the engine picks (threshold) is observed only "
+                 "through the Big sessions and the inc_no_val_index mutation; Map key collisions excluded by the generator",
+    "assumptions": [
+        "ids are unbounded nat; hash buckets are modelled by a perfect hash (locator = contents at filing time)",
+        "container ids are never unioned by the user (container sorts are not eq-sorts): R_union requires non-container classes",
+        "contents inserted between rebuilds mention canonical ids or ids displaced since the last container pass "
+        "(true in egglog: values come from canonical tables; unions are applied at the end of an iteration)",
+        "Map key collisions: surviving value left to an oracle in the theorems; the generator never makes two keys collide",
+    ],
 }
